@@ -29,6 +29,8 @@ def case_strategy(draw):
     spec["cols"].append({"name": "s", "kind": "int", "values": [(i * 5 + seed) % (t + 1) for i, t in enumerate(trials)]})
     spec["cols"].append({"name": "n", "kind": "int", "values": trials})
     spec["cols"].append({"name": "t", "kind": "float", "values": [3.0] * n})  # an exposure that happens to be constant in training
+    # a Categorical that declares a category no row has (what is left after filtering rows): 'zz' never occurs
+    spec["cols"].append({"name": "cg", "kind": "cat", "values": ["m" if (i + seed) % 3 else "n" for i in range(n)], "categories": ["n", "zz", "m"], "ordered": False})
     kind = draw(st.sampled_from(["binary", "binary", "offset", "offset", "prop", "prop", "identity", "alias", "alias", "prop_invalid"]))
     c = {"kind": kind, "frame": spec}
     rows = draw(st.lists(st.integers(0, n - 1), min_size=1, max_size=6))
@@ -36,13 +38,14 @@ def case_strategy(draw):
     c["fresh"] = draw(st.booleans())
     c["fresh_seed"] = draw(st.integers(1, 9))
     if kind == "binary":
-        c["x"] = draw(st.sampled_from(["k", "g", "f", "x > 0", "k == 2", "h", "k - 10", "k - 10"]))
+        c["x"] = draw(st.sampled_from(["k", "g", "f", "x > 0", "k == 2", "h", "k - 10", "k - 10", "cg"]))
         c["success"] = draw(st.sampled_from(["omitted", "present", "present", "absent"]))
         c["pick"] = draw(st.integers(0, 5))
         c["fn"] = draw(st.sampled_from(["binary", "B"]))
         c["keyword"] = draw(st.booleans())
     elif kind == "offset":
-        c["arg"] = draw(st.sampled_from(["x", "z", "k", "2", "2.5", "-2", "1 + 1", "-1.5", "3 * 2", "np.log(p)", "x * 2", "-x", "0", "k + 1", "t", "np.log(t)", "t * 2"]))
+        c["arg"] = draw(st.sampled_from(["x", "z", "k", "2", "2.5", "-2", "1 + 1", "-1.5", "3 * 2", "np.log(p)", "x * 2", "-x", "0", "k + 1", "t", "np.log(t)", "t * 2", "np.mean(x)", "np.log(np.max(p))", "np.mean(z) * 2"]))
+        c["by_keyword"] = draw(st.integers(0, 4)) == 0  # offset(x=...): the argument passed by its name
     elif kind == "prop":
         c["fn"] = draw(st.sampled_from(["prop", "p", "proportion"]))
         c["trials"] = draw(st.sampled_from(["n", "n", "40", "trials=n", "trials=40", "n + 1"]))
@@ -157,7 +160,7 @@ def judge(ctx, case):
 
     if kind == "offset":
         arg = case["arg"]
-        formula = f"y ~ 1 + offset({arg})"
+        formula = f"y ~ 1 + offset({'x=' if case.get('by_keyword') else ''}{arg})"
         done(formula, extra=["offset:" + ("column" if arg in ("x", "z", "t", "k") else ("call" if any(c.isalpha() for c in arg) else "constant"))])
         full = dict(case, formula=formula)
         env = {"x": frame["x"].to_numpy(dtype=float), "z": frame["z"].to_numpy(dtype=float), "p": frame["p"].to_numpy(dtype=float), "np": np,
